@@ -534,6 +534,18 @@ func (fr *Frame) instr(in ssa.Instruction) {
 	case *ssa.Alloc:
 		el := i.Type().(*types.Pointer).Elem()
 		ref := fr.freshRef(i.Comment)
+		if a, ok := el.Underlying().(*types.Array); ok && !isLeaf(a.Elem()) {
+			// array of structs: a backing array in the HA family, zero-initialised per leaf
+			for _, eh := range elemHeaps(a.Elem()) {
+				z := "((as const (Array Int " + eh.lf.Sort + ")) " + zeroTerm(eh.lf.T) + ")"
+				if eh.lf.Sort == "Str" {
+					x.declStrEmpty()
+				}
+				fr.heapSet(eh.name, eh.sort, sStore(x.heapGet(fr.cur, eh.name, eh.sort), ref, z))
+			}
+			fr.vals[i] = &SVal{T: i.Type(), Term: ref}
+			return
+		}
 		loc := &Loc{Kind: LRef, Base: ref, Root: el, T: el}
 		fr.writeLoc(loc, zeroVal(el))
 		fr.vals[i] = &SVal{T: i.Type(), Term: ref}
@@ -687,6 +699,14 @@ func (fr *Frame) unop(i *ssa.UnOp) {
 		loc := fr.ptrLoc(v, true)
 		fr.vals[i] = fr.readLoc(loc)
 		fr.vals[i].T = i.Type()
+		if _, isG := i.X.(*ssa.Global); isG && kindOf(i.Type()) == KPtr {
+			// package-level loggers are initialised at package init and never nil (A-LOG)
+			if pt, ok := i.Type().Underlying().(*types.Pointer); ok {
+				if n, ok := pt.Elem().(*types.Named); ok && n.Obj().Pkg() != nil && strings.HasSuffix(n.Obj().Pkg().Path(), "/util/logging") {
+					x.em.Assert(sLt("0", fr.vals[i].Term))
+				}
+			}
+		}
 	case token.NOT:
 		fr.vals[i] = leaf(i.Type(), sNot(v.Term))
 	case token.SUB:
@@ -775,6 +795,11 @@ func (fr *Frame) indexAddr(i *ssa.IndexAddr) {
 			panic(unsupported("IndexAddr on %s", v.T))
 		}
 		fr.oblige("safe:index", "", sAnd(sLe("0", idx), sLt(idx, sInt(a.Len()))), "")
+		if loc.Kind == LRef && len(loc.Path) == 0 {
+			// pointer to a whole array: the ref names a backing array, as for slices
+			fr.vals[i] = &SVal{T: i.Type(), Loc: &Loc{Kind: LElem, Base: loc.Base, Idx: idx, Root: a.Elem(), T: a.Elem()}}
+			return
+		}
 		fr.vals[i] = &SVal{T: i.Type(), Loc: loc.extend(PStep{Idx: idx}, a.Elem())}
 	default:
 		panic(unsupported("IndexAddr on %s", v.T))
@@ -822,7 +847,7 @@ func (fr *Frame) slice(i *ssa.Slice) {
 		mx := opt(i.Max, n)
 		fr.oblige("safe:slice", "", sAnd(sLe("0", lo), sLe(lo, hi), sLe(hi, mx), sLe(mx, n)), "")
 		var arr string
-		if loc.Kind == LRef && len(loc.Path) == 0 && isLeaf(a.Elem()) {
+		if loc.Kind == LRef && len(loc.Path) == 0 {
 			arr = loc.Base
 		} else {
 			// array embedded in a struct or element: snapshot copy into a fresh backing array
